@@ -62,8 +62,8 @@ def check_linear(index, ctx):
                                 "returns self.weights itself", f"the weighting returns {v.short()} (origin {sorted(v.origin)}), not the configured vector unmodified", w.cls.loc())
                 else:
                     want = expect[name]
-                    okv = v.poly is not None and v.poly == want and tuple(v.axes) == ("R",) and not reads and not v.rng
+                    okv = v.poly is not None and v.poly == want and tuple(v.axes) == ("R",) and not reads and not v.rng and v.dtype == "M"
                     ctx.require(okv, "A2", f"{name}: weights are the constant {want} for each of the m rows" if not okv else pk,
                                 f"constant vector of length m, value {want}",
-                                f"weights {v.short()} have closed form {v.poly} over axes {v.axes} (expected constant {want} over (R,)); reads matrix values: {reads}", w.cls.loc(),
+                                f"weights {v.short()} have closed form {v.poly} over axes {v.axes}, dtype tag {v.dtype} (expected constant {want} over (R,) in the matrix dtype); reads matrix values: {reads}", w.cls.loc(),
                                 derivation={"closed_form": repr(v.poly)})
